@@ -74,7 +74,15 @@ def jobs_for(tier, seed):
     return [(seed * 100 + i, 14, 2 if i % 3 else 8) for i in range(4)]
 
 
-def run_jobs(tier, seed, v, cov, claim, jobs=None):
+def scan_only(out):
+    """Without TLC: the events no behaviour of the specification contains (the driver's own verdicts)."""
+    lines = vlib.read_trace(out)
+    fs = [dict(kind="unexplained", seg=vlib.seg_of(l), line=l) for l in lines
+          if '"e":"Wedged"' in l or '"e":"Hang"' in l or '"e":"Leak"' in l]
+    return dict(findings=fs, inconclusive=[], accepted_segments=len(set(vlib.seg_of(l) for l in lines)) - 1 - len(set(f["seg"] for f in fs)))
+
+
+def run_jobs(tier, seed, v, cov, claim, jobs=None, validate=True):
     """claim(kind, what) -> property id that owns a finding of that kind, or None (logged as a deviation)."""
     binary = vlib.go_build("maint")
     wd = vlib.scratch("verif-maint-")
@@ -85,10 +93,12 @@ def run_jobs(tier, seed, v, cov, claim, jobs=None):
         rc, so, se = vlib.run_driver(binary, ["-seed", s, "-n", n, "-k", k, "-trace", out], timeout=1500)
         if rc != 0:
             return job, out, dict(error="maint driver rc=%s: %s" % (rc, (se or "")[-3000:])), None
+        if not validate:
+            return job, out, {}, scan_only(out)
         tv = vlib.validate_trace("Trace_Maintainer", (trace_cfg(k), None), out, {}, timeout=1500, max_rounds=4)
         return job, out, {}, tv
 
-    selftest = jobs is None
+    selftest = jobs is None and validate
     jobs = jobs or jobs_for(tier, seed)
     with ThreadPoolExecutor(max_workers=min(len(jobs), max(1, vlib.NCPU // 2))) as ex:
         results = list(ex.map(one, jobs))
